@@ -204,6 +204,21 @@ def fixtures():
             if any(hit for _, hit in rules_stream.range_end_sites(ctx, b)):
                 got.add(fn)
     expect("R-ST-RANGE-END", got, ["re_bad_saturating"], ["re_ok_empty_when_nothing_le_end"])
+    # batch 13
+    got = set()
+    for fn, b in sorted(ctx.prog.bodies.items()):
+        if fn.startswith("b13::Reg::ea_") and b.kind != "Closure":
+            if any(bad is not None for _, _, _, bad in rules_block.expiry_selection(ctx, b)):
+                got.add(fn)
+    import rules_cmd
+    got2 = set()
+    for fn, b in sorted(ctx.prog.bodies.items()):
+        if fn.startswith("b13::ao_") and b.kind != "Closure":
+            frames = [k for k in range(1, b.nargs + 1) if "protocol::resp::RespFrame" in b.locals[k]]
+            if any(bad for *_, bad in rules_cmd.reorder_sites(ctx, fn, b, frames, False)):
+                got2.add(fn)
+    expect("R-ARG-ORDER", got2, ["ao_bad_sorted_pairs"], ["ao_ok_in_order", "ao_ok_sorts_something_else"])
+    expect("R-BLK-EXPIRE-ALL", got, ["ea_bad_skip_collected", "ea_bad_retain_predicate"], ["ea_ok_report_once"])
     _FX = (n, fails)
     return _FX
 
